@@ -3,6 +3,7 @@ import PydraModel.JobProto.C13Async
 import PydraModel.JobProto.C35Run
 import PydraModel.JobProto.C35Async
 import PydraModel.JobProto.Bind
+import PydraModel.JobProto.ShellExec
 /-
 C13 — Failures are reported and never cached as success (DESIGN §6 C13, engine JobProto §5.4).  FULL on the
 current tree (D9, D60, D61 are repaired; their witnesses are kept as regression theorems).
@@ -15,6 +16,9 @@ current tree (D9, D60, D61 are repaired; their witnesses are kept as regression 
   RuntimeError carrying the RECORDED error — never "NOT RETRIEVED", never a success, never empty outputs.
 * `C13_success_reported`: a submission whose body succeeds reports its outputs whatever was cached before,
   in particular right after a failed run in the same process (regression of D61).
+* `C13_shell_rc` / `C13_shell_not_cached`: the shell executor's outcome as a function of the return code, with the test
+  expression REGENERATED from `Native.execute`: for EVERY `rc ≠ 0` — negative ones (death by signal) included — the
+  executor raises, hence the job directory holds an errored result and the next submission executes again.
 * `C13_binding_*`: `PythonTask._run` + `_from_job`: decision theorem "binding succeeds iff the returned object is
   usable and provides every mandatory output" for any number of outputs (regression of D9).
 Finite parts are evaluated by the kernel on the GENERATED skeletons (`JobProto/C13Run.lean`, `C13Async.lean`).
@@ -106,6 +110,24 @@ theorem C13_regression_D60 :
     (exec jobRun ⟨false, false, some true, auditStartChdir⟩ .none World.fresh).1.core.result =
       .complete ⟨true, false⟩ := by
   decide +kernel
+
+/-! ### Shell tasks: the return code of the command -/
+
+/-- for every non-zero return code (any integer: exit statuses and `-N` = killed by signal `N`) the executor raises -/
+theorem C13_shell_rc (rc : Int) (h : rc ≠ 0) : shellExecute Gen.ShellExec.nativeRcTest rc = .raised :=
+  shellExecute_nonzero rc h
+
+/-- … and so a shell task whose command ends with a non-zero return code is never cached as a success:
+    `C13_not_cached` applies to it (from every initial world) -/
+theorem C13_shell_not_cached (rc : Int) (h : rc ≠ 0) (w0 : World) (h0 : w0.core.Initial) (rerun prov : Bool)
+    (hex : Executes rerun w0.core) :
+    FailureOK false w0
+      (exec jobRun ⟨rerun, prov, shellBody Gen.ShellExec.nativeRcTest rc, auditStartChdir⟩ .none w0) := by
+  rw [shellBody_nonzero rc h]
+  exact C13_not_cached w0 h0 rerun prov false hex
+
+example : shellExecute Gen.ShellExec.nativeRcTest (-11) = .raised := C13_shell_rc (-11) (by decide)
+example : shellExecute Gen.ShellExec.nativeRcTest 0 = .returned 0 := shellExecute_zero
 
 /-! ### Return-value binding of python tasks -/
 
